@@ -152,10 +152,11 @@ def run(ck):
             # the restored value is a local saved before the loop
             for s in sets:
                 v = skip_copies(s["args"][0])
-                if not (v.get("k") == "ref" and v.get("dk") == "local"):
-                    ck.ob("C01-O4", sitestr(proc, s), None, "restored value %s is not a local variable; idiom not recognised" % describe(v))
+                place = resolve_place(proc, v)
+                if place is None:
+                    ck.ob("C01-O4", sitestr(proc, s), None, "restored value %s is not a local variable or a field of a local snapshot; idiom not recognised" % describe(v))
                     continue
-                check_saved_local(ck, proc, g, v["decl"], getter, must_guard, keep_s, loopsite, s, what, tag)
+                check_saved_local(ck, proc, g, place, getter, must_guard, keep_s, loopsite, s, what, tag)
         # nothing else in Pipeline::process mutates the message
         for n in proc.calls():
             if n.get("ck") == "member" and obj_is_param(n, proc, 0) and n.get("constm") is False and n not in set_f and n not in set_a:
@@ -234,17 +235,93 @@ def branch_depends_on(g, site, call):
     return False
 
 
-def check_saved_local(ck, proc, g, decl, getter, must_guard, keep_s, loopsite, restore, what, tag):
-    """the local restored after the loop holds the value the message had before the loop"""
+def _whole_object_source(proc, decl):
+    """if local `decl` only ever holds a copy of / a reference to another local (initialised or assigned once from it, possibly through
+    a spliced helper's return value) return that local's decl"""
+    dn, var = local_var(proc, decl)
+    if var is None:
+        return None
+    srcs = []
+    if isinstance(var.get("init"), dict):
+        i0 = skip_copies(var["init"])
+        if not (i0.get("k") == "construct" and not i0.get("args")):
+            srcs.append(var["init"])
+    for r in refs_to(proc, decl):
+        asg, rhs = assignment_target(proc, r)
+        if asg is not None:
+            srcs.append(rhs)
+    if len(srcs) != 1:
+        return None
+    x = skip_copies(srcs[0])
+    for _ in range(4):
+        if isinstance(x, dict) and x.get("k") == "call" and x.get("inl_value") is not None and x["inl_value"] in proc.nodes:
+            x = skip_copies(proc.nodes[x["inl_value"]])
+        elif isinstance(x, dict) and x.get("k") in ("construct", "cast") and (x.get("e") or (x.get("args") and len(x["args"]) == 1)):
+            x = skip_copies(x.get("e") or x["args"][0])
+        else:
+            break
+    if isinstance(x, dict) and x.get("k") == "ref" and x.get("dk") == "local" and x.get("decl") != decl:
+        return x["decl"]
+    return None
+
+
+def resolve_place(proc, v):
+    """(local decl, field name or None) the restored value lives in, after following whole-object copies of a snapshot struct"""
+    v = skip_copies(v)
+    fld = None
+    if v.get("k") == "member" and v.get("dk") == "field":
+        fld = v["name"].split("::")[-1]
+        v = skip_copies(v.get("base"))
+    if not (v.get("k") == "ref" and v.get("dk") == "local"):
+        return None
+    decl = v["decl"]
+    for _ in range(6):
+        nxt = _whole_object_source(proc, decl)
+        if nxt is None:
+            break
+        # the intermediate object must not be edited field by field
+        if fld is not None and any(asg is not None for _, asg, _ in _field_writes(proc, decl, fld)):
+            break
+        decl = nxt
+    return decl, fld
+
+
+def _field_writes(proc, decl, fld):
+    out = []
+    for n in proc.find(lambda n: n.get("k") == "member" and n.get("dk") == "field" and n["name"].split("::")[-1] == fld):
+        b = skip_copies(n.get("base"))
+        if b.get("k") == "ref" and b.get("decl") == decl:
+            asg, rhs = assignment_target(proc, n)
+            out.append((n, asg, rhs))
+    return out
+
+
+def check_saved_local(ck, proc, g, place, getter, must_guard, keep_s, loopsite, restore, what, tag):
+    """the local (or the field of a local snapshot object) restored after the loop holds the value the message had before the loop"""
     F = ck.facts
+    decl, fld = place
     dn, var = local_var(proc, decl)
     ck.require(var is not None, "saved local for %s not found" % what)
     init = skip_copies(var.get("init"))
-    init_default = isinstance(init, dict) and init.get("k") == "construct" and not init.get("args")
-    init_getter = isinstance(init, dict) and is_call(init, getter) and obj_is_param(init, proc, 0)
+    init_default = init is None or (isinstance(init, dict) and init.get("k") == "construct" and not init.get("args"))
+    init_getter = fld is None and isinstance(init, dict) and is_call(init, getter) and obj_is_param(init, proc, 0)
     isfmt = lambda n: is_call(n, LM + "::isFormatted") and obj_is_param(skip_copies(n), proc, 0)
     writes = []
-    for r in refs_to(proc, decl):
+    if fld is not None:
+        rec = [r for r in F.records.values() if (var.get("type") or "").replace("const ", "").replace("struct ", "").strip().endswith(r["name"].split("::")[-1])]
+        fdef = [f_ for r in rec for f_ in r.get("fields", []) if f_["name"] == fld]
+        if not fdef or isinstance(fdef[0].get("init"), dict):
+            ck.ob("C01-O4", sitestr(proc, dn), None, "snapshot field %s has a default member initialiser or its record was not found; idiom not recognised" % fld)
+            return
+        rid = skip_copies(restore["args"][0])["id"]
+        for n, asg, rhs in _field_writes(proc, decl, fld):
+            if asg is None:
+                if any(a.get("id") == rid or n.get("id") == rid for a in [n] + list(proc.ancestors(n))):
+                    continue
+                ck.ob("C01-O4", sitestr(proc, n), None, "unrecognised use of the saved %s field" % what)
+                return
+            writes.append((asg, rhs))
+    for r in (refs_to(proc, decl) if fld is None else []):
         if r["id"] == skip_copies(restore["args"][0])["id"]:
             continue
         asg, rhs = assignment_target(proc, r)
